@@ -143,6 +143,73 @@ theorem cli_line_local (st : PState) (h1 h2 : List Bytes) (l : Bytes)
 /-- Non-vacuity: the empty input has no records and the tool exits successfully on it. -/
 theorem split_nil : splitNewline [] = [] := by rw [splitNewline]; simp
 
+/-! ### A line is what stands between two line feeds, however long -/
+
+theorem takeWhile_append_sep (l rest : Bytes) (h : (0x0A : UInt8) ∉ l) :
+    (l ++ 0x0A :: rest).takeWhile (· != 0x0A) = l ∧ (l ++ 0x0A :: rest).dropWhile (· != 0x0A) = 0x0A :: rest := by
+  induction l with
+  | nil => simp
+  | cons x t ih =>
+    have hx : (x != 0x0A) = true := by
+      simp only [List.mem_cons, not_or] at h
+      simp only [bne_iff_ne, ne_eq]
+      exact fun e => h.1 e.symm
+    have ht : (0x0A : UInt8) ∉ t := fun hm => h (List.mem_cons_of_mem _ hm)
+    obtain ⟨a, b⟩ := ih ht
+    simp only [List.cons_append, List.takeWhile_cons, List.dropWhile_cons, hx, if_true]
+    exact ⟨by rw [a], b⟩
+
+/-- **The first record of a stream is everything before its first line feed - whatever its length and
+    content - and the rest of the stream is split on its own.**  No block size, no length limit, no byte with a
+    special meaning besides the line feed enters. -/
+theorem split_cons (l rest : Bytes) (h : (0x0A : UInt8) ∉ l) :
+    splitNewline (l ++ 0x0A :: rest) = l :: splitNewline rest := by
+  obtain ⟨a, b⟩ := takeWhile_append_sep l rest h
+  rw [splitNewline]
+  have hne : ¬ (l ++ 0x0A :: rest = []) := by simp
+  rw [if_neg hne]
+  split
+  · rename_i hd; rw [b] at hd; cases hd
+  · rename_i x r hd
+    rw [b] at hd
+    cases hd
+    rw [a]
+
+/-- A last line without a line feed is a record too. -/
+theorem split_last (l : Bytes) (hne : l ≠ []) (h : (0x0A : UInt8) ∉ l) : splitNewline l = [l] := by
+  have hne' : ∀ (m : Bytes), (0x0A : UInt8) ∉ m → m.takeWhile (· != 0x0A) = m ∧ m.dropWhile (· != 0x0A) = [] := by
+    intro m
+    induction m with
+    | nil => intro _; exact ⟨rfl, rfl⟩
+    | cons x t ih =>
+      intro hm
+      have hx : (x != 0x0A) = true := by
+        simp only [List.mem_cons, not_or] at hm
+        simp only [bne_iff_ne, ne_eq]
+        exact fun e => hm.1 e.symm
+      obtain ⟨a, b⟩ := ih (fun hh => hm (List.mem_cons_of_mem _ hh))
+      simp only [List.takeWhile_cons, List.dropWhile_cons, hx, if_true]
+      exact ⟨by rw [a], b⟩
+  obtain ⟨ht, hd⟩ := hne' l h
+  rw [splitNewline, if_neg hne]
+  split
+  · rw [ht]
+  · rename_i x r hd'; rw [hd] at hd'; cases hd'
+
+/-- **Every stream of lines**: feeding `l₁ \n l₂ \n … lₙ \n` gives the tool exactly the records `l₁ … lₙ`,
+    for lines of any length (none of them containing a line feed). -/
+theorem split_lines : ∀ (lines : List Bytes), (∀ l ∈ lines, (0x0A : UInt8) ∉ l) →
+    splitNewline (lines.flatMap (fun l => l ++ [0x0A])) = lines := by
+  intro lines
+  induction lines with
+  | nil => intro _; exact split_nil
+  | cons l t ih =>
+    intro h
+    have hl := h l (List.mem_cons_self)
+    have ht : ∀ x ∈ t, (0x0A : UInt8) ∉ x := fun x hx => h x (List.mem_cons_of_mem _ hx)
+    simp only [List.flatMap_cons, List.append_assoc, List.singleton_append]
+    rw [split_cons l _ hl, ih ht]
+
 example : cliRun [] = ([], .success) := by unfold cliRun; rw [split_nil]; rfl
 
 end AisVerif.C20
